@@ -305,19 +305,28 @@ theorem fill_idempotent_optimal_safe (env : Env) (hsp : env.cw SP = 1) (mo : Min
   obtain ⟨h1, h2⟩ := fill_idempotent_of_stable env mo o t ls hw hne hno hstable
   exact ⟨_, h2, h1⟩
 
-/-! ### lines that overflow (ASCII separator, no hyphenation) -/
+/-! ### lines that overflow (ASCII separator, built-in splitters) -/
+
+theorem points_part (isAlnum : Char → Bool) (sp : Splitter) (hb : Builtin sp) (pre u post : Text)
+    (h : sp.points isAlnum (pre ++ u ++ post) = []) : sp.points isAlnum u = [] := by
+  cases sp with
+  | none => rfl
+  | hyphen => exact pointFree_sub isAlnum pre u post h
+  | custom f => exact absurd hb (by simp [Builtin])
 
 /-- where an overflowing line of the first result comes from: a single fragment without a space
-    which, with `break_words`, is a piece of `break_apart` -/
+    and without a split point of the configured splitter which, with `break_words`, is a piece
+    of `break_apart` -/
 structure Prov (env : Env) (o : Opts) (l : Text) : Prop where
   nosp : SP ∉ l
   ne : l ≠ []
+  nopts : o.splitter.points env.isAlnum l = []
   brk : o.breakWords = true → o.width < displayWidth env.cw l →
     ∃ w0 f, f ∈ breakApart env.cw o.width w0 ∧ f.word = l ∧ f.width = displayWidth env.cw l
 
 /-- an overflowing line with that provenance is stable -/
 theorem stable_of_prov (env : Env) (hcw : ∀ c, env.cw c ≤ c.utf8Size) (mo : MinimaOracle Int) (o : Opts)
-    (halg : o.alg = .firstFit) (hsep : o.sep = .ascii) (hspl : o.splitter = .none)
+    (halg : o.alg = .firstFit) (hsep : o.sep = .ascii)
     (hii : o.initialIndent = []) (hsi : o.subsequentIndent = [])
     (l : Text) (hp : Prov env o l) (hover : o.width < displayWidth env.cw l) : Stable env mo o l := by
   intro n
@@ -330,13 +339,12 @@ theorem stable_of_prov (env : Env) (hcw : ∀ c, env.cw c ≤ c.utf8Size) (mo : 
   unfold wrapSingleLine
   rw [if_neg hnoshort]
   -- the fragments of the line: the line itself
-  have hW : (mkWord env.cw l []).width = displayWidth env.cw l := rfl
   have hpipe : pipeline env o l (o.width - displayWidth env.cw o.subsequentIndent) = some [mkWord env.cw l []] := by
     unfold pipeline
     simp only [hsep, findWords, findWordsAscii_single env.cw l hp.ne hp.nosp]
     rw [splitWords_nopoints env o.splitter [mkWord env.cw l []] (by
       intro W hW'; simp only [List.mem_singleton] at hW'; subst hW'
-      exact ⟨by rw [hspl]; rfl, rfl⟩)]
+      exact ⟨hp.nopts, rfl⟩)]
     simp only [hii, hsi, List.isEmpty_nil, if_true, displayWidth, dwFrom, Nat.sub_zero]
     cases hbw : o.breakWords with
     | false => simp
@@ -362,15 +370,17 @@ theorem stable_of_prov (env : Env) (hcw : ∀ c, env.cw c ≤ c.utf8Size) (mo : 
   simp
 
 /-- every line of one paragraph fits the width or has the provenance of an unbreakable fragment
-    (first-fit, ASCII separator, no hyphenation, empty indents, safe paragraph) -/
+    (first-fit, ASCII separator, built-in splitter, empty indents, safe paragraph): this is also
+    C02's exception clause for `break_words` off — the overlong part contains no space (no break
+    opportunity of the ASCII separator) and no split point of the splitter -/
+-- @audit TW.C14.line_fits_or_prov
 theorem line_fits_or_prov (env : Env) (hsp : env.cw SP = 1) (hcw : ∀ c, env.cw c ≤ c.utf8Size)
     (mo : MinimaOracle Int) (o : Opts)
-    (halg : o.alg = .firstFit) (hsep : o.sep = .ascii) (hspl : o.splitter = .none)
+    (halg : o.alg = .firstFit) (hsep : o.sep = .ascii) (hb : Builtin o.splitter)
     (hii : o.initialIndent = []) (hsi : o.subsequentIndent = [])
     (p : Text) (hsafe : SeqSafe o.splitter p) (n : Nat) (ds : List LineD)
     (h : wrapSingleLine env mo o p n = some ds) :
     ∀ d ∈ ds, displayWidth env.cw d.render ≤ o.width ∨ Prov env o d.render := by
-  have hb : Builtin o.splitter := by rw [hspl]; trivial
   have hind : ∀ k, TW.C05.indentOf o k = [] := by intro k; unfold TW.C05.indentOf; split <;> assumption
   unfold wrapSingleLine at h
   by_cases hc : blen p < o.width ∧ (if n = 0 then o.initialIndent else o.subsequentIndent).isEmpty = true
@@ -420,65 +430,70 @@ theorem line_fits_or_prov (env : Env) (hsp : env.cw SP = 1) (hcw : ∀ c, env.cw
           have hslice : groupSlice [f] = f.word := by simp [groupSlice]
           rw [hslice] at hfit ⊢
           -- where `f` comes from
-          have hshape : ∃ fw : List Word, fw = findWordsAscii env.cw p ∧
-              frs = (if o.breakWords then breakWords env.cw o.width fw else fw) := by
+          have hshape : ∃ sws : List Word, splitWords env o.splitter (findWordsAscii env.cw p) = some sws ∧
+              frs = (if o.breakWords then breakWords env.cw o.width sws else sws) := by
             unfold pipeline at hp
             simp only [hsep, findWords] at hp
-            have hfw : ∀ W ∈ findWordsAscii env.cw p,
-                o.splitter.points env.isAlnum W.word = [] ∧ W.width = displayWidth env.cw W.word := by
-              intro W hW
-              refine ⟨by rw [hspl]; rfl, ?_⟩
-              obtain ⟨t, _, rfl⟩ := List.mem_map.mp hW
-              rfl
-            rw [splitWords_nopoints env o.splitter _ hfw] at hp
-            simp only [hii, hsi, List.isEmpty_nil, if_true, displayWidth, dwFrom, Nat.sub_zero] at hp
-            refine ⟨_, rfl, ?_⟩
-            cases hbw : o.breakWords with
-            | false => simp only [hbw, Bool.false_eq_true, if_false, Option.some.injEq] at hp ⊢; exact hp.symm
-            | true => simp only [hbw, if_true, Option.some.injEq] at hp ⊢; exact hp.symm
-          obtain ⟨fw, hfw, hfrs⟩ := hshape
+            split at hp
+            · simp at hp
+            · next sws hs =>
+              simp only [hii, hsi, List.isEmpty_nil, if_true, displayWidth, dwFrom, Nat.sub_zero] at hp
+              refine ⟨sws, hs, ?_⟩
+              cases hbw : o.breakWords with
+              | false => simp only [hbw, Bool.false_eq_true, if_false, Option.some.injEq] at hp ⊢; exact hp.symm
+              | true => simp only [hbw, if_true, Option.some.injEq] at hp ⊢; exact hp.symm
+          obtain ⟨sws, hsws, hfrs⟩ := hshape
           have hwords_nosp := findWordsAscii_noSP env.cw p
-          have hnosp : SP ∉ f.word := by
+          have hpieces := splitWords_pieces env o.splitter hb _ sws hsws
+          -- `f.word` is a contiguous part of a piece `s`
+          have hpart : ∃ s ∈ sws, ∃ A B, s.word = A ++ f.word ++ B := by
             cases hbw : o.breakWords with
             | false =>
               rw [hbw] at hfrs; simp only [Bool.false_eq_true, if_false] at hfrs
-              rw [hfrs, hfw] at hfm
-              exact hwords_nosp f hfm
+              rw [hfrs] at hfm
+              exact ⟨f, hfm, [], [], by simp⟩
             | true =>
               rw [hbw] at hfrs; simp only [if_true] at hfrs
               rw [hfrs] at hfm
-              obtain ⟨w0, hw0, h | h⟩ := mem_breakWords env.cw o.width fw f hfm
-              · intro hm
-                exact hwords_nosp w0 (by rw [← hfw]; exact hw0) (breakApart_sub env.cw o.width w0 f h.2 SP hm)
-              · rw [h.1]; exact hwords_nosp w0 (by rw [← hfw]; exact hw0)
-          refine ⟨hnosp, ?_, ?_⟩
+              obtain ⟨s, hs, h | h⟩ := mem_breakWords env.cw o.width sws f hfm
+              · obtain ⟨A, B, e⟩ := breakApart_part env.cw o.width s f h.2
+                exact ⟨s, hs, A, B, e⟩
+              · exact ⟨s, hs, [], [], by rw [h.1]; simp⟩
+          obtain ⟨s, hs, A, B, es⟩ := hpart
+          obtain ⟨⟨w, hw, A', B', ew⟩, hpts⟩ := hpieces s hs
+          have hnosp : SP ∉ f.word := by
+            intro hm
+            apply hwords_nosp w hw
+            rw [ew, es]
+            simp [hm]
+          refine ⟨hnosp, ?_, ?_, ?_⟩
           · intro he; rw [he] at hfit; simp [displayWidth, dwFrom] at hfit
+          · exact points_part env.isAlnum o.splitter hb A f.word B (by rw [← es]; exact hpts)
           · intro hbw hover
             rw [hbw] at hfrs; simp only [if_true] at hfrs
             rw [hfrs] at hfm
-            obtain ⟨w0, _, h | h⟩ := mem_breakWords env.cw o.width fw f hfm
+            obtain ⟨w0, _, h | h⟩ := mem_breakWords env.cw o.width sws f hfm
             · exact ⟨w0, f, h.2, rfl, (c2 f (by rw [hfrs]; exact hfm)).2⟩
             · exfalso
               have := (c2 f (by rw [hfrs]; exact hfm)).2
               rw [h.1] at this hover
               omega
 
-/-- **fill is idempotent for the ASCII separator at EVERY width** (first-fit, no hyphenation,
-    empty indents, `break_words` on or off): lines that fit are stable by C05, lines that overflow
-    are single unbreakable fragments and are found, left unsplit, left unbroken
-    (`break_apart_idempotent`) and placed alone again. Hypotheses on the text: the paragraphs and
-    the lines of the first result are safe (`SeqSafe`; e.g. ESC-free) and the lines contain no
-    line feed. -/
+/-- **fill is idempotent for the ASCII separator at EVERY width** (first-fit, both built-in
+    splitters, empty indents, `break_words` on or off): lines that fit are stable by C05, lines
+    that overflow are single unbreakable fragments and are found, left unsplit
+    (`splitOne_pointFree`), left unbroken (`break_apart_idempotent`) and placed alone again.
+    Hypotheses on the text: the paragraphs and the lines of the first result are safe
+    (`SeqSafe`; e.g. ESC-free) and the lines contain no line feed. -/
 -- @audit TW.C14.fill_idempotent_ascii_every_width
 theorem fill_idempotent_ascii_every_width (env : Env) (hsp : env.cw SP = 1) (hcw : ∀ c, env.cw c ≤ c.utf8Size)
     (mo : MinimaOracle Int) (hmo : MoShape mo) (o : Opts)
-    (halg : o.alg = .firstFit) (hsep : o.sep = .ascii) (hspl : o.splitter = .none)
+    (halg : o.alg = .firstFit) (hsep : o.sep = .ascii) (hb : Builtin o.splitter)
     (hii : o.initialIndent = []) (hsi : o.subsequentIndent = [])
     (t : Text) (ls : List Text) (hw : wrap env mo o t = some ls)
     (hsafeT : ∀ p ∈ splitEnding o.lineEnding t, SeqSafe o.splitter p)
     (hsafeL : ∀ l ∈ ls, SeqSafe o.splitter l) (hno : ∀ l ∈ ls, LF ∉ l) :
     ∃ f, fill env mo o t = some f ∧ fill env mo o f = some f := by
-  have hb : Builtin o.splitter := by rw [hspl]; trivial
   have hne := TW.C09.wrap_nonempty env mo hmo o (builtin_inRange _ _ hb) t ls hw
   have hbare := wrap_lines_bare env mo hmo o hsep hb hii hsi t ls hw
   -- every line fits or has the provenance
@@ -507,35 +522,30 @@ theorem fill_idempotent_ascii_every_width (env : Env) (hsp : env.cw SP = 1) (hcw
               simp only [Option.some.injEq] at h; subst h
               rcases List.mem_append.mp hd with hd | hd
               · obtain ⟨d0, hd0, rfl⟩ := List.mem_map.mp hd
-                exact line_fits_or_prov env hsp hcw mo o halg hsep hspl hii hsi p (hs p (by simp)) n lsd hls d0 hd0
+                exact line_fits_or_prov env hsp hcw mo o halg hsep hb hii hsi p (hs p (by simp)) n lsd hls d0 hd0
               · exact ih (fun q hq => hs q (by simp [hq])) _ _ rest hrest d hd
             · simp at h
       intro l hl
       obtain ⟨d, hdm, rfl⟩ := List.mem_map.mp hl
       exact key _ hsafeT 0 0 ds hd d hdm
+  have hfitstable : ∀ l ∈ ls, displayWidth env.cw l ≤ o.width → Stable env mo o l := by
+    intro l hl hfit
+    apply stable_of_one_line env mo o hb hii hsi l (hbare l hl)
+    intro n
+    cases hp : pipeline env o l (o.width - displayWidth env.cw o.subsequentIndent) with
+    | none => exact absurd hp (fun h => TW.C05.shortcut_sound_ascii_escfree.pipeline_ascii_total env o hsep hb l _ h)
+    | some frs =>
+      have hindent : TW.C05.indentOf o n = [] := by unfold TW.C05.indentOf; split <;> assumption
+      refine ⟨frs, rfl, pipeline_lastOk_ascii env o hsep (builtin_inRange _ _ hb) l _ frs hp, ?_⟩
+      exact TW.C05.fits_one_line_firstfit_safe env hsp mo o hb halg l (hsafeL l hl) n frs hp
+        (by rw [hindent]; simp [displayWidth, dwFrom]; unfold displayWidth at hfit; omega)
   have hstable : ∀ l ∈ ls, Stable env mo o l := by
     intro l hl
-    rcases hall l hl with hfit | hprov
-    · apply stable_of_one_line env mo o hb hii hsi l (hbare l hl)
-      intro n
-      cases hp : pipeline env o l (o.width - displayWidth env.cw o.subsequentIndent) with
-      | none => exact absurd hp (fun h => TW.C05.shortcut_sound_ascii_escfree.pipeline_ascii_total env o hsep hb l _ h)
-      | some frs =>
-        have hindent : TW.C05.indentOf o n = [] := by unfold TW.C05.indentOf; split <;> assumption
-        refine ⟨frs, rfl, pipeline_lastOk_ascii env o hsep (builtin_inRange _ _ hb) l _ frs hp, ?_⟩
-        exact TW.C05.fits_one_line_firstfit_safe env hsp mo o hb halg l (hsafeL l hl) n frs hp
-          (by rw [hindent]; simp [displayWidth, dwFrom]; unfold displayWidth at hfit; omega)
-    · by_cases hfit : displayWidth env.cw l ≤ o.width
-      · apply stable_of_one_line env mo o hb hii hsi l (hbare l hl)
-        intro n
-        cases hp : pipeline env o l (o.width - displayWidth env.cw o.subsequentIndent) with
-        | none => exact absurd hp (fun h => TW.C05.shortcut_sound_ascii_escfree.pipeline_ascii_total env o hsep hb l _ h)
-        | some frs =>
-          have hindent : TW.C05.indentOf o n = [] := by unfold TW.C05.indentOf; split <;> assumption
-          refine ⟨frs, rfl, pipeline_lastOk_ascii env o hsep (builtin_inRange _ _ hb) l _ frs hp, ?_⟩
-          exact TW.C05.fits_one_line_firstfit_safe env hsp mo o hb halg l (hsafeL l hl) n frs hp
-            (by rw [hindent]; simp [displayWidth, dwFrom]; unfold displayWidth at hfit; omega)
-      · exact stable_of_prov env hcw mo o halg hsep hspl hii hsi l hprov (by omega)
+    by_cases hfit : displayWidth env.cw l ≤ o.width
+    · exact hfitstable l hl hfit
+    · rcases hall l hl with h | hprov
+      · exact absurd h hfit
+      · exact stable_of_prov env hcw mo o halg hsep hii hsi l hprov (by omega)
   obtain ⟨h1, h2⟩ := fill_idempotent_of_stable env mo o t ls hw hne hno hstable
   exact ⟨_, h2, h1⟩
 
